@@ -137,6 +137,9 @@ def make_jobs(spec):
                 st["maxres"] = st["nin"] + rng.choice([0, 1, 2, 4])
             if rng.random() < 0.3:
                 st["treq"] = sc.NOW0 - 5
+            if rng.random() < 0.25:
+                # the application's on_message fails for some (or all) delivered numbers: invisible to the session
+                st["raising"] = ["all"] if rng.random() < 0.4 else sorted(rng.sample(range(st["nin"], st["nin"] + 6), 3))
             ln = rng.randrange(1, maxlen + 1)
             items = [("in", rand_sym(rng)) for _ in range(ln)]
             decl = [rng.randrange(1, 8)] if rng.random() < 0.3 else []
@@ -146,6 +149,20 @@ def make_jobs(spec):
         return [(dict(c["start"], prelude=[tuple(x) for x in c.get("prelude", [])]),
                  [("op", op, bytes.fromhex(fr) if fr else None) for op, fr in zip(c["ops"], c["frames"])],
                  c.get("declined", [])) for c in spec[1]]
+    if kind == "cases_ext":
+        # a disagreeing history often shows the damage only in what FOLLOWS it (a counter that did not advance, a journal
+        # row under the wrong number): every case is continued with in-sequence / next / replayed traffic relative to the
+        # implementation's own expected number
+        app = {"cls": "app", "rel": "at", "pd": False}
+        conts = [[app, app], [app, dict(app, rel="plus1"), dict(app, rel="below", pd=True), app],
+                 [dict(app, rel="plus1"), dict(app, rel="below", pd=True), app], [{"cls": "hb", "rel": "at", "id": "none"}, app, app]]
+        jobs = []
+        for c in spec[1]:
+            base = [("op", op, bytes.fromhex(fr) if fr else None) for op, fr in zip(c["ops"], c["frames"])]
+            for cont in conts:
+                jobs.append((dict(c["start"], prelude=[tuple(x) for x in c.get("prelude", [])]),
+                             base + [("in", dict(x)) for x in cont], c.get("declined", [])))
+        return jobs
     raise ValueError(spec)
 
 
@@ -353,6 +370,7 @@ def search(ctx, cases):
         specs = []
         if cases:
             specs.append(("cases", [c for c in cases if c and "ops" in c]))
+            specs.append(("cases_ext", [c for c in cases if c and "ops" in c][:40]))
         rng = random.Random(ctx.seed + 1)
         specs += [("rand", rng.randrange(1 << 30), ctx.scale(300, 3000), 40) for _ in range(16)]
         sc.run_specs(ctx, MOD, specs, timeout=ctx.scale(120, 600))
